@@ -16,6 +16,33 @@ CHECKS = {
              '(2^24 stratified values in quick, all 2^32 in thorough).',
         technique='Coq proof (induction over the divisor loop) + model/implementation correspondence by differential execution + independent oracle',
         design='7/C14'),
+    'C02': dict(
+        text='Theorems dispatch_closed / compose_spec / first_match_spec / undefined_header: on the model of SCPI_Parse the handler starts of a message are, in order and exactly once, the first table entry accepting each unit\'s effective header computed from the message text alone; an undefined header starts no handler and queues one -113 with the unit text. Tied by differential execution of generated multi-unit messages over overlapping tables; an independent reference (effective-header rule + short/long-form matcher) judges the implementation\'s own traces.',
+        technique='Coq proof (induction over the unit loop with the in-place header composition) + correspondence + reference dispatcher oracle', design='7/C02'),
+    'C03': dict(
+        text='Theorem match_language: for every well-formed unambiguous pattern (rendered from an item list) and every non-empty header, the model of matchCommand accepts iff the header is in the short/long-form language (greedy item matcher = nondeterministic language, then concrete loop = greedy matcher). Numeric-suffix reporting incl. the default for skipped keywords is covered by correspondence and an independent reference matcher on the implementation.',
+        technique='Coq proof (two-level refinement: concrete loop -> greedy item matcher -> language) + correspondence + reference matcher oracle', design='7/C03'),
+    'C06': dict(
+        text='Theorem framing: for every context (any history), message, command table and scripts, the bytes written by the model of SCPI_Parse are the join with ";" of the join with "," of the items of the responding units, followed by one line terminator and one flush iff some unit responded (script_framing_streamed extends the script level to streamed blocks). Tied by differential execution; an independent framing function judges the implementation\'s output.',
+        technique='Coq proof (invariant over result calls, units and the message) + correspondence + independent framing oracle', design='7/C06'),
+    'C10': dict(
+        text='Theorems push_refines / pop_refines / qrun_refines / clear_spec: the ring FIFO + error queue model (malloc configuration) refines an abstract list of capacity N for every history: overflow replaces the newest entry by -350, codes come back in order, texts are owned (every free hits a live allocation exactly once, nothing live after clear), allocation failure keeps the error. Tied by exhaustive short and random long histories on the malloc and no-info builds with LeakSanitizer and allocation-failure injection.',
+        technique='Coq proof (refinement to an abstract bounded FIFO + ownership invariant) + correspondence + reference queue oracle', design='7/C10'),
+    'C11': dict(
+        text='Theorem stb_coherent: the five summary equivalences are an invariant of every operation of the register model (all 16-bit values at once), hence of every history. Tied by breadth-first operation sequences over the three-representative-bit alphabet and random 16-bit walks through the API and the IEEE 488.2 commands; the invariant is also evaluated directly on the implementation\'s register dumps.',
+        technique='Coq proof (invariant by induction over operations, bit-level lemmas) + correspondence + invariant oracle on implementation state', design='7/C11'),
+    'C12': dict(
+        text='Theorems classify (all 65536 codes, by evaluation over the table regenerated from error.c) and srq_step (callback only with MSS set, always when MSS rises). Latching and stickiness are checked by the oracle on the implementation and by correspondence with the register model.',
+        technique='Coq proof (finite evaluation over the generated table + step lemma) + correspondence + oracle', design='7/C12'),
+    'C13': dict(
+        text='Per-recogniser theorems on the lexer model: decimal numbers, white space, character data, single characters and flat expressions consume exactly the longest prefix of their 488.2 grammar (or nothing); nondecimal numbers likewise; strings and definite-length blocks are sound and complete for their delimited forms; compound/common headers and whole units header-blank-decimal-list-terminator are complete; the line terminator is maximal. Tied by all strings up to length 4/5 over one representative per character class (every recogniser on every string) plus generated long tokens; independent regular-expression references judge the implementation.',
+        technique='Coq proof (maximal-munch lemmas per recogniser) + correspondence (exhaustive short strings) + grammar oracle', design='7/C13'),
+    'C18': dict(
+        text='Theorems quoted_part / quoted_bounded / quoted_prefix / quoted_maximal: for every description and text the model of SCPI_ResultError emits code,"q" with every quote doubled, |q| <= 255, unquote(q) a prefix of description;text, cut as late as the limit allows. Tied on the malloc build directly and through push + SYST:ERR? on the malloc and static-heap builds; an independent 488.2 string reader judges the implementation.',
+        technique='Coq proof (induction over the text with the running limit) + correspondence + independent string-reader oracle', design='7/C18'),
+    'C20': dict(
+        text='Theorems strndup_inv / text_at / free_first / free_last / empty_reusable (heap level) and add_static / pop_static / clear_static / run_static / empty_queue_reusable (queue over the heap): for every history, heap size and capacity every queued error reports exactly its text or none, all bytes outside live texts are zero, the heap is completely reusable when the queue is empty, every store is inside the heap. Tied on the static-heap build with the heap bytes, write index and free count compared after every operation (exact-size heap under ASan).',
+        technique='Coq proof (circular-layout invariant, induction over histories) + correspondence on heap bytes + text-or-nothing oracle', design='7/C20'),
 }
 
 NOT_YET = {}
